@@ -73,6 +73,50 @@ def first_run_sync_name(prog: Program) -> str:
     return cands[0]
 
 
+VALID_HINT = "_is_value_valid"
+
+
+def validity_name(prog: Program) -> str | None:
+    """The shared validity predicate of MetricFetcher, bound by role: the private method (instance or static)
+    that fetch_next_with_fallback() -- or, failing that, the paths of fetch_next() -- consult on `<the received
+    primary sample>.value`.  `_is_value_valid` is only the hint; None when the test is written in line."""
+    cls = prog.cls("timeseries.formula_engine._formula_steps:MetricFetcher")
+    if VALID_HINT in cls.methods:
+        return VALID_HINT
+    cands: set[str] = set()
+    order = [m for m in cls.methods.values() if m.name == "fetch_next_with_fallback"] + \
+        [m for m in cls.methods.values() if m.name != "fetch_next_with_fallback"]
+    for holder in order:
+        fl = Flow(prog, holder)
+        recv = [c for _n, c in fl.calls(lambda c: isinstance(c.func, ast.Attribute) and c.func.attr == "receive" and u(c.func.value) == "self._stream")]
+        for nid, c in fl.calls(lambda c: isinstance(c.func, ast.Attribute) and isinstance(c.func.value, ast.Name)
+                               and c.func.value.id in ("self", "cls", cls.name) and c.func.attr.startswith("_") and c.func.attr in cls.methods
+                               and not cls.methods[c.func.attr].is_async):
+            args = list(c.args) + [k.value for k in c.keywords]
+            if len(args) != 1:
+                continue
+            o = fl.origin1(args[0], nid)
+            if o is not None and o.kind == "expr" and isinstance(o.node, ast.Attribute) and o.node.attr == "value" \
+                    and fl.is_node_any(o.node.value, recv, o.nid):
+                cands.add(c.func.attr)  # type: ignore[union-attr]
+        if cands:
+            break
+    if len(cands) > 1:
+        raise AnalysisError(f"{cls.qual}: several methods judge the received sample's value: {sorted(cands)}")
+    name = cands.pop() if cands else None
+    if name is not None:
+        KEEP_NAMES.add(name)
+    return name
+
+
+def is_validity_call(e: ast.AST, name: str | None) -> ast.AST | None:
+    """The argument of a call of the validity predicate (`self.` / `cls.` / `MetricFetcher.` <name>(x)), else None."""
+    if name is not None and isinstance(e, ast.Call) and isinstance(e.func, ast.Attribute) and e.func.attr == name \
+            and isinstance(e.func.value, ast.Name) and len(e.args) + len(e.keywords) == 1:
+        return (list(e.args) + [k.value for k in e.keywords])[0]
+    return None
+
+
 def private_callee(prog: Program, fn: FuncInfo, call: ast.Call) -> FuncInfo | None:
     """The private, non-anchored helper of the same class / module a call resolves to."""
     f = call.func
